@@ -50,6 +50,17 @@ def collections(tier):
             for inc in (False, True):
                 accept = (len(dl) > 0 and not mixed and n_rc == 1 and n_rd <= 1 and (inc or n_rd == 1))
                 yield dl, inc, accept, {'rc': n_rc, 'rd': n_rd, 'other': n_other, 'mixed': mixed, 'shape': shape}
+        if n_rc == 1 and not two_ids and len(docs) >= 2:
+            # running-order IDs that are blank: the same blank ID everywhere is one running order, a blank one among
+            # others is a second one; a message without any roID tag is not schema-shaped (no claim, model comparison only)
+            all_blank = [t.replace('<roID>RO1</roID>', '<roID />') for t in docs]
+            one_blank = docs[:-1] + [docs[-1].replace('<roID>RO1</roID>', '<roID />')]
+            one_missing = docs[:-1] + [docs[-1].replace('<roID>RO1</roID>', '')]
+            for inc in (False, True):
+                ok = n_rd <= 1 and (inc or n_rd == 1)
+                yield all_blank, inc, ok, {'rc': n_rc, 'rd': n_rd, 'other': n_other, 'mixed': False, 'shape': 'blank-roid-all'}
+                yield one_blank, inc, False, {'rc': n_rc, 'rd': n_rd, 'other': n_other, 'mixed': True, 'shape': 'blank-roid-one'}
+                yield one_missing, inc, None, {'rc': n_rc, 'rd': n_rd, 'other': n_other, 'mixed': None, 'shape': 'missing-roid-one'}
 
 
 CLASS_OF = {'roReplace': 'RunningOrderReplace', 'roStoryAppend': 'StoryAppend', 'roReadyToAir': 'ReadyToAir', 'roDelete': 'RunningOrderEnd'}
@@ -94,7 +105,9 @@ class Check:
                 n += 1
                 sigs.add((meta['rc'], meta['rd'], meta['other'], meta['mixed'], meta['shape'], inc, flag, r[0] if r[0] == 'ok' else r[1]))
                 what = None
-                if accept and r[0] != 'ok':
+                if accept is None:
+                    pass                    # outside the property's domain: compared with the model only
+                elif accept and r[0] != 'ok':
                     what = 'a valid collection %r (allow_incomplete=%s, %s) was rejected with %s' % (meta, inc, flag, r[1])
                 elif not accept and r[0] == 'ok':
                     what = 'an invalid collection %r (allow_incomplete=%s) was accepted under %s' % (meta, inc, flag)
